@@ -39,10 +39,20 @@ def fstr(x):
 
 def build_doc(doc):
     """-> votes dict, n_seats, candidates list, title   (real votelib objects)"""
-    from votelib.candidate import Person
+    from votelib.candidate import Person, PoliticalParty
     cands = []
-    for name, wd, kind in doc['cands']:
-        cands.append(name if kind == 'str' else Person(name, withdrawn=bool(wd)))
+    party = None
+    for i, (name, wd, kind) in enumerate(doc['cands']):
+        if kind == 'str':
+            cands.append(name)
+        elif kind == 'int':                 # a bare int as candidate (0 included); its name in a file is str(int)
+            cands.append(int(name))
+        elif kind == 'person_full':         # a Person with number, party membership and candidacy
+            party = party or PoliticalParty('The Party', number=3)
+            cands.append(Person(name, number=40 - i, membership=party, candidacy_for=party,
+                                properties={'district': 'N'}, withdrawn=bool(wd)))
+        else:
+            cands.append(Person(name, withdrawn=bool(wd)))
     votes = {}
     for idx, w in doc['ballots']:
         votes[tuple(cands[i] for i in idx)] = weight_py(w)
@@ -279,6 +289,10 @@ def _decimal_ok(it):
 
 # ------------------------------------------------------------------------------------------------ generators
 NAMES_PLAIN = ['Ann', 'Bob', 'Cy', 'Dee', 'Eve', 'Flo', 'Gus', 'Hal']
+# names that differ only in case or in the white space inside, names that look like file syntax
+NAMES_CLASH = ['Ann Lee', 'ann lee', 'ANN LEE', 'Ann  Lee', 'Ann\tLee', 'AnnLee', 'end', 'End', '3X', 'X', '0', '-1', '1 2 0',
+               'ballots=blt', 'candidate=x y', 'title', 'Ünal Ö.', 'ünal ö.', 'Ωmega', 'ß', 'ǅ']
+TITLES_RICH = ['Council 2020', 'T', ' padded ', '', 'Élection 2024 — Gemeinderat', '選挙', 'seats=3', 'end', '0', '"']
 NAMES_RICH = ['J. Smith', "O'Neil, Pat", 'Jean-Luc P.', 'A B', 'A. B.', 'Ab', 'al', 'Émile Ÿ', 'Dr. X (ind.)', 'x=y', 'A;B',
               '漢字 名', 'a "quoted" one', '1', '0', 'John  Doe', 'M.C. Hammer', 'van der Berg', 'Ann', 'Bob B. Bob', 'Q']
 # double quotes and hash signs in every order (BLT only: the STV header form cannot carry '#')
@@ -297,18 +311,45 @@ def quote_hash_order(text):
     return out
 
 
+# 10^9, 2^53 and its neighbours, 10^18, 10^30, 10^400 (never first on a line of a text that gets mutated: see huge_header)
+BIG_INTS = [10 ** 9, 2 ** 53 - 1, 2 ** 53, 2 ** 53 + 1, 10 ** 18, 10 ** 30, 10 ** 400]
+
+
+def weight_features(w):
+    """tags for the weight dimensions of the generator checklist"""
+    x = weight_py(w)
+    out = set()
+    if x == 0:
+        out.add('weight_zero_' + w['k'])
+    if x < 0:
+        out.add('weight_negative')
+    if Fraction(x).denominator > 10 ** 6:
+        out.add('weight_huge_denominator')
+    if w['k'] == 'dec' and 'E' in w['v'].upper():
+        out.add('weight_decimal_exponent')
+    if abs(x) >= 2 ** 53:
+        out.add('weight_2_53_and_above')
+    if abs(x) >= 10 ** 400:
+        out.add('weight_10_400')
+    return out
+
+
 def gen_weight(rng, kinds=('int', 'dec', 'frac')):
     k = rng.choice(kinds)
     if k == 'int':
-        return {'k': 'int', 'v': str(rng.choice([1, 1, 1, 2, 3, 5, 12, 0, 4000]))}
+        return {'k': 'int', 'v': str(rng.choice([1, 1, 1, 2, 3, 5, 12, 0, 4000] + BIG_INTS))}
     if k == 'dec':
-        return {'k': 'dec', 'v': rng.choice(['1.5', '0.25', '2', '3.0', '10.125', '1.50', '7', '0.001', '100', '1000000000000.5'])}
-    return {'k': 'frac', 'v': rng.choice(['2', '3', '1', '7', '1/2', '7/3', '22/7'])}
+        return {'k': 'dec', 'v': rng.choice(['1.5', '0.25', '2', '3.0', '10.125', '1.50', '7', '0.001', '100', '1000000000000.5',
+                                             '0', '0.0', '1', '1.4', '0.1234567', '1E+2', '1E-30', '9007199254740993.5',
+                                             '0.333333333333', '0.333333333334'])}
+    return {'k': 'frac', 'v': rng.choice(['2', '3', '1', '7', '1/2', '7/3', '22/7', '0', '123456789/1000000007',
+                                          '1/1000000000000000000000000000007', '333333333333/1000000000000',
+                                          '333333333334/1000000000000'])}
 
 
 def gen_doc(rng, names=None, max_c=6, person=None, weights=('int', 'dec', 'frac'), title=None, withdrawn=True):
     n = rng.randint(1, max_c) if rng.random() < 0.95 else 0
-    pool = list(names or (NAMES_PLAIN + NAMES_RICH + NAMES_QUOTE_HASH))
+    pool = list(names or (NAMES_PLAIN + NAMES_RICH + NAMES_QUOTE_HASH + NAMES_CLASH))
     if person is None:
         person = rng.random() < 0.6
     all_person = person and rng.random() < 0.5
@@ -318,11 +359,13 @@ def gen_doc(rng, names=None, max_c=6, person=None, weights=('int', 'dec', 'frac'
     chosen = pool[:n]
     cands = []
     for nm in chosen:
-        kind = 'person' if person else 'str'
+        kind = ('person_full' if rng.random() < 0.3 else 'person') if person else 'str'
         if person and not all_person and rng.random() < 0.15:
             kind = 'str'
-        wd = withdrawn and kind == 'person' and rng.random() < 0.3
+        wd = withdrawn and kind != 'str' and rng.random() < 0.3
         cands.append([nm, wd, kind])
+    if not person and names is None and n and rng.random() < 0.1:       # bare ints as candidates, 0 included
+        cands = [[str(i), False, 'int'] for i in rng.sample(range(0, 9), n)]
     ballots, seen = [], set()
     for _ in range(rng.randint(0, 6)):
         k = rng.randint(0, n)
@@ -332,7 +375,7 @@ def gen_doc(rng, names=None, max_c=6, person=None, weights=('int', 'dec', 'frac'
         seen.add(tuple(idx))
         ballots.append([idx, gen_weight(rng, weights)])
     if title is None:
-        title = rng.choice([None, None, 'Council 2020', 'T', ' padded ', ''] + TITLES_QUOTE_HASH)
+        title = rng.choice([None, None, None] + TITLES_RICH + TITLES_QUOTE_HASH)
     elif title == '-':
         title = None
     return {'seats': rng.randint(0, max(n, 1)), 'cands': cands, 'ballots': ballots, 'title': title}
@@ -344,10 +387,16 @@ JUNK = ['abc', '-1', '1.5', '²', 'nan', '1/2', '"', '""', '#', '0', '00', '99',
 def mutate_text(rng, text):
     """-> (mutated text, mutation kind)"""
     lines = text.split('\n')
-    kind = rng.choice(['truncate_chars', 'truncate_lines', 'drop_line', 'dup_line', 'swap_lines', 'junk_token', 'junk_token',
+    kind = rng.choice(['crlf', 'bom', 'no_final_newline', 'truncate_chars', 'truncate_lines', 'drop_line', 'dup_line', 'swap_lines', 'junk_token', 'junk_token',
                        'insert_token', 'drop_token', 'char_replace', 'unquote', 'extra_string', 'blank_and_comment',
                        'index_out_of_range', 'zero_inside', 'insert_junk_line'])
     r = rng
+    if kind == 'crlf':                       # Windows line ends: the same file
+        return text.replace('\n', '\r\n'), kind
+    if kind == 'bom':                        # a byte order mark read as text: not a number / not a header key
+        return '\ufeff' + text, kind
+    if kind == 'no_final_newline':
+        return text.rstrip('\n'), kind
     if kind == 'truncate_chars':
         return text[:r.randint(0, max(len(text) - 1, 0))], kind
     if kind == 'truncate_lines':
@@ -407,9 +456,9 @@ def huge_header(text, limit=20000):
     """a header announcing more candidates than `limit` makes every reader allocate that many names: not generated"""
     for line in text.split('\n'):
         for it in line.split():
-            if it.isdigit() and len(it) < 30:
+            if it.isdigit():
                 try:
-                    if int(it) > limit:
+                    if len(it) > 6 or int(it) > limit:
                         return True
                 except ValueError:
                     pass
